@@ -16,7 +16,9 @@ pack-0.92, rich-root-pack, knit, 1.9, 1.14, 1.14-rich-root, dirstate-tags);
 2a->2a additionally by Branch.pull, Branch.push, into a repository stacked on a
 fallback that holds S, and through the in-process loopback smart server in both
 directions (remote target: insert_stream; remote source: get_stream; push to /
-pull from a remote branch).
+pull from a remote branch); pack-0.92->2a also with the tree-delta based
+InterDifferingSerializer (selected with the IDS_always debug flag, as breezy
+itself only selects it for file:// repositories).
 
 Oracle (from the statement): the target has the tip and every non-ghost
 ancestor; for each of them revision metadata, tree content incl. last-changed
@@ -50,8 +52,10 @@ def configs(thorough, n):
         pairs = list(QUICK_PAIRS)
     out = [(s, t, "fetch") for s, t in pairs]
     out += [("2a", "2a", r) for r in ROUTES_2A]
+    out.append(("pack-0.92", "2a", "fetch-ids"))
     if thorough and n <= 3:
         out += [("pack-0.92", "2a", r) for r in ("stacked", "smart-fetch-to", "smart-fetch-from")]
+        out += [(s, t, "fetch-ids") for s, t in (("rich-root-pack", "2a"), ("knit", "2a"), ("pack-0.92", "rich-root-pack"))]
     return out
 
 
@@ -76,6 +80,21 @@ def _do(route, S, T, hist, tip):
     if route in ("fetch", "stacked"):
         tgt = Branch.open(T.url + "t").repository
         tgt.fetch(Branch.open(S.url + "src").repository, revision_id=rid)
+    elif route == "fetch-ids":
+        # the tree-delta based cross-serializer fetcher; breezy selects it only for file:// repositories,
+        # the documented debug flag selects it for any transport
+        from breezy import debug
+        from breezy.bzr.vf_repository import InterDifferingSerializer
+        from breezy.repository import InterRepository
+        tgt = Branch.open(T.url + "t").repository
+        srcr = Branch.open(S.url + "src").repository
+        debug.set_debug_flag("IDS_always")
+        try:
+            if not isinstance(InterRepository.get(srcr, tgt), InterDifferingSerializer):
+                raise HarnessError("InterDifferingSerializer was not selected")
+            tgt.fetch(srcr, revision_id=rid)
+        finally:
+            debug.unset_debug_flag("IDS_always")
     elif route == "pull":
         Branch.open(T.url + "t").pull(Branch.open(S.url + "src"), stop_revision=rid, overwrite=True)
     elif route == "push":
@@ -296,3 +315,22 @@ def run(ctx):
         "samples": acc.samples[:2],
         "exhaustive": True,
     }
+
+
+def replay(ctx, data):
+    """Re-run the single reported (history, configuration, pre-content, tip) case."""
+    d = data["first"]
+    route, pair = d["config"].split(":", 1)
+    sf, tf = pair.split("->")
+    h = d["history"]
+    hist = fw.History(h["dag"], h["trees"], h["ghost_parent_at"])
+    acc = par.Acc()
+
+    class One(fw.History):
+        def closed_subsets(self):
+            return [frozenset(d["pre_content"])]
+    one = One(hist.dag, hist.states, hist.ghost_at)
+    check_history(one, [(sf, tf, route)], acc)
+    sigs = sorted({s for s, _x in acc.violations})
+    print("  signatures on replay:", sigs)
+    return data["signature"] not in sigs
